@@ -51,3 +51,35 @@ def closure(fn: ast.FunctionDef, globs: dict, tag: str):
     ns = dict(globs)
     exec(compile(src, f"<slice {tag}>", "exec"), ns)
     return ns[fn.name], src
+
+
+def loop_with_init(tree: ast.AST, loop: ast.For, max_init: int = 4):
+    """The statements that initialise the loop's accumulators, taken from the real source: the run of simple assignments
+    (`x = <literal / {} / [] / call-free expression>`, annotated or not) directly before `loop` in its enclosing block.
+    Returns (nodes = init statements + [loop], name of the dict/list the loop fills via `NAME[...] = ...`)."""
+    parent_body = None
+    for n in ast.walk(tree):
+        for field in ("body", "orelse", "finalbody"):
+            b = getattr(n, field, None)
+            if isinstance(b, list) and any(x is loop for x in b):
+                parent_body = b
+    if parent_body is None:
+        raise SliceError("enclosing block of the loop not found")
+    i = next(k for k, x in enumerate(parent_body) if x is loop)
+    init = []
+    j = i - 1
+    while j >= 0 and len(init) < max_init:
+        st = parent_body[j]
+        ok = isinstance(st, ast.Assign) and len(st.targets) == 1 and isinstance(st.targets[0], ast.Name) or isinstance(st, ast.AnnAssign) and isinstance(st.target, ast.Name) and st.value is not None
+        if not ok or any(isinstance(c, ast.Call) for c in ast.walk(st.value)):
+            break
+        if isinstance(st, ast.AnnAssign):  # drop the annotation (it may name types the slice's globals lack)
+            st = ast.Assign(targets=[st.target], value=st.value, lineno=st.lineno, col_offset=0)
+        init.insert(0, st)
+        j -= 1
+    inits = {s.targets[0].id for s in init}
+    filled = [t.value.id for s in ast.walk(loop) if isinstance(s, ast.Assign) for t in s.targets if isinstance(t, ast.Subscript) and isinstance(t.value, ast.Name)]
+    acc = next((f for f in filled if f in inits), None)
+    if acc is None:
+        raise SliceError("the loop's accumulator (NAME[...] = ... with NAME initialised before the loop) not found")
+    return [ast.fix_missing_locations(s) for s in init] + [loop], acc
